@@ -144,6 +144,57 @@ def check(res, tier):
     for pgm in rprogs:
         cjobs.append((evalcorr_files(pgm), pipeline.Config(opt=0), {"compile_only": True}))
         cmeta.append(None)
+    # ill-formed variants too: the front end should refuse them, but whatever it lets through has to be compiled, not crash the back end
+    from .. import mutate
+    nmut = 0
+    for pgm in rprogs[:12 if tier == "quick" else 120]:
+        src0 = gen.pp_program(pgm)
+        for kind, msrc in mutate.text_mutants(src0, rng) + mutate.text_wellformed(src0):
+            cjobs.append(({"main.ddp": msrc}, pipeline.Config(opt=0), {"compile_only": True}))
+            cmeta.append(None)
+            nmut += 1
+        for kind, mp in mutate.ast_mutants(pgm, rng, 4):
+            try:
+                cjobs.append(({"main.ddp": gen.pp_program(mp)}, pipeline.Config(opt=0), {"compile_only": True}))
+                cmeta.append(None)
+                nmut += 1
+            except (ValueError, KeyError, TypeError):
+                pass
+    # positions where the type checker admits more than one numeric type: the code generator has to convert
+    NUM = {"Z": ("Die Zahl", "Zahl", "5"), "K": ("Die Kommazahl", "Kommazahl", "2,5"), "B": ("Der Byte", "Byte", "(3 als Byte)")}
+    pos_progs = []
+    for a in NUM:
+        for b in NUM:
+            A, B = NUM[a], NUM[b]
+            vb = "%s quelle ist %s.\n" % (B[0], B[2])
+            pos_progs += [
+                ("initialiser %s<-%s" % (a, b), vb + "%s ziel ist quelle.\n" % A[0]),
+                ("assignment %s<-%s" % (a, b), vb + "%s ziel ist %s.\nSpeichere quelle in ziel.\n" % (A[0], A[2])),
+                ("list element assignment %s<-%s" % (a, b), vb + "Die %s Liste zl ist eine Liste, die aus %s besteht.\nSpeichere quelle in zl an der Stelle 1.\n" % (
+                    {"Z": "Zahlen", "K": "Kommazahlen", "B": "Byte"}[a], A[2])),
+                ("field default %s<-%s" % (a, b), 'Wir nennen die Kombination aus\n\t%s %s feld mit Standardwert %s,\neinen Halter, und erstellen sie so:\n\t"ein Halter"\nDer Halter h ist ein Halter.\n' % (
+                    {"Die": "der", "Der": "dem"}[A[0].split()[0]], A[1], B[2])),
+                ("compound plus %s,%s" % (a, b), vb + "%s ziel ist %s.\nErhöhe ziel um quelle.\nVerringere ziel um quelle.\nVervielfache ziel um quelle.\nTeile ziel durch quelle.\n" % (A[0], A[2])),
+                ("for bound %s,%s" % (a, b), vb + "Für %s %s i von 1 bis quelle, mache:\n\tSchreibe i.\n" % ({"Die": "jede", "Der": "jeden"}[A[0].split()[0]], A[1])),
+                ("for step %s,%s" % (a, b), vb + "Für %s %s i von 1 bis 9 mit Schrittgröße quelle, mache:\n\tSchreibe i.\n" % ({"Die": "jede", "Der": "jeden"}[A[0].split()[0]], A[1])),
+                ("for start %s,%s" % (a, b), vb + "Für %s %s i von quelle bis 9, mache:\n\tSchreibe i.\n" % ({"Die": "jede", "Der": "jeden"}[A[0].split()[0]], A[1])),
+            ]
+    for b in NUM:
+        B = NUM[b]
+        vb = "%s quelle ist %s.\nDie Zahlen Liste zl ist eine Liste, die aus 1, 2, 3, 4, 5, 6 besteht.\nDer Text tx ist \"abcdef\".\n" % (B[0], B[2])
+        pos_progs += [
+            ("repeat count " + b, vb + "Wiederhole:\n\tSchreibe 1.\nquelle Mal.\n"),
+            ("list repetition count " + b, vb + "Die Zahlen Liste rl ist quelle Mal 7.\n"),
+            ("list index " + b, vb + "Schreibe (zl an der Stelle quelle).\nSpeichere 9 in zl an der Stelle quelle.\n"),
+            ("text index " + b, vb + "Schreibe (tx an der Stelle quelle).\nSpeichere 'z' in tx an der Stelle quelle.\n"),
+            ("slice bounds " + b, vb + "Schreibe (die Länge von (zl im Bereich von quelle bis 6)).\nSchreibe (tx im Bereich von 1 bis quelle).\nSchreibe (tx bis zum quelle. Element).\nSchreibe (tx ab dem quelle. Element).\n"),
+            ("shift amount " + b, vb + "Schreibe (8 um quelle Bit nach Links verschoben).\nSchreibe (8 um quelle Bit nach Rechts verschoben).\n"),
+            ("power and root " + b, vb + "Schreibe (2 hoch quelle).\nSchreibe (die quelle. Wurzel von 64).\nSchreibe (der Logarithmus von 8 zur Basis quelle).\n"),
+        ]
+    npos = len(pos_progs)
+    for label, body in pos_progs:
+        cjobs.append(({"main.ddp": 'Binde "Duden/Ausgabe" ein.\n' + body}, pipeline.Config(opt=0), {"compile_only": True}))
+        cmeta.append([(label, (), 0, body)])
     couts = pipeline.farm(ddp, cjobs)
     res.evaluations += len(cjobs)
     ncomp = 0
@@ -158,7 +209,7 @@ def check(res, tier):
                 res.violation("composite:%s" % (hash(files["main.ddp"]) % 10 ** 9),
                               "accepted by the front end but not compiled (%s)%s" % (r.cls, "" if grp is None else ": operator cells " + ", ".join(sorted({g[0] for g in grp}))),
                               {"program": files["main.ddp"], "files": files, "implementation": r.as_dict(), "note": "replay: kddp kompiliere main.ddp -O 0"})
-    res.extra.update({"composite_operand_statements": len(stmts), "random_programs_compiled": len(rprogs), "refused_by_the_front_end": st_front})
+    res.extra.update({"composite_operand_statements": len(stmts), "random_programs_compiled": len(rprogs), "ill_formed_variants_compiled": nmut, "numeric_position_programs": npos, "refused_by_the_front_end": st_front})
     # ---- programs combining features (routed here from the other generators): a small fixed set
     combos = {
         "nested-list": 'Wir nennen eine Zahlen Liste auch eine Reihung.\nDie Reihung a ist eine Liste, die aus 1, 2 besteht.\n'
